@@ -197,7 +197,7 @@ def three_next(ctx, lib):
     digits = {}
     n_store = 0
     for p in paths:
-        stores = [e for e in p.effects if e.get("kind") in ("store", "store_index")]
+        stores = kernel.stores_of(p)
         started = cond_val(p, lambda e: e[0] == "field" and e[2] == "started")
         dec = [e for e in effects_named(p, "ThreeValuedInterpretationsIterator::decrement_vec")]
         if int_of(started) == 0:
@@ -210,8 +210,8 @@ def three_next(ctx, lib):
                 ctx.ob(rule, "yield-only-if-decrement-succeeded", int_of(dv) == 1, where=b.where(), expected="decrement_vec returned true", found=show(dv) if dv else None)
         for s_ in stores:
             n_store += 1
-            tgt = deep_strip(s_["args"][0])
-            val = deep_strip(s_["args"][-1])
+            tgt = deep_strip(s_[0])
+            val = deep_strip(s_[1])
             # target: <clone of original>[ indexes[i] ]
             ok_t = tgt[0] == "index" and symx.contains(tgt[1], lambda n: n[0] == "field" and n[2] == "original") and idx_from_indexes(tgt[2])
             ctx.ob(rule, "store-target", ok_t, where=b.where(), expected="result[indexes[i]] with result = original.clone()", found=show(tgt)[:200])
@@ -247,7 +247,7 @@ def three_decrement(ctx, lib):
     paths = eng.summarise(b)
     seen = set()
     for p in paths:
-        stores = [e for e in p.effects if e.get("kind") in ("store", "store_index")]
+        stores = kernel.stores_of(p)
         gt = [(deep_strip(e), v) for e, v in p.cond if deep_strip(e)[0] == "app" and deep_strip(e)[1] in ("Gt", "Ne", "Ge", "Lt", "Le", "Eq")]
         if p.end == "return" and strip(p.ret) == vbool(False):
             seen.add("exhausted")
@@ -261,15 +261,15 @@ def three_decrement(ctx, lib):
                 ctx.ob(rule, "decrement.skip-only-zero", ok, where=b.where(), expected="continue only past digits that are 0", found=p.describe()[:200])
             continue
         first = stores[0]
-        tgt = deep_strip(first["args"][0])
-        val = deep_strip(first["args"][-1])
+        tgt = deep_strip(first[0])
+        val = deep_strip(first[1])
         ok = (len(gt) >= 1 and gt[0][0][1] == "Gt" and gt[0][0][2][1] == vint(0) and int_of(gt[0][1]) == 1
               and deep_strip(gt[0][0][2][0]) == tgt and val == symx.lin_add(tgt, vint(-1)))
         seen.add("decrement")
         ctx.ob(rule, "decrement.first-nonzero-minus-one", ok, where=b.where(), expected="*digit -= 1 under *digit > 0, on the tested digit", found="%s := %s" % (show(tgt)[:100], show(val)[:100]))
         for s_ in stores[1:]:
-            t2 = deep_strip(s_["args"][0])
-            v2 = deep_strip(s_["args"][-1])
+            t2 = deep_strip(s_[0])
+            v2 = deep_strip(s_[1])
             # reset of earlier digits: items of vector[0..cur] with cur = index of the decremented digit
             rng = symx.find_all(t2, lambda n: n[0] == "adt" and n[1].endswith("ops::Range"))
             okr = v2 == vint(2) and len(rng) >= 1 and symx.adt_get(rng[0], "start") == vint(0)
@@ -322,7 +322,7 @@ def two_next(ctx, lib):
     paths = eng.summarise(b)
     seen = set()
     for p in paths:
-        stores = [e for e in p.effects if e.get("kind") in ("store", "store_index")]
+        stores = kernel.stores_of(p)
         started = cond_val(p, lambda e: e[0] == "field" and e[2] == "started")
         if int_of(started) == 0:
             seen.add("first")
@@ -346,15 +346,15 @@ def two_next(ctx, lib):
         if not stores:
             ctx.ob(rule, "two.step-stores", False, where=b.where(), expected="the found index is set to TOP", found=p.describe()[:200])
             continue
-        t0 = deep_strip(stores[0]["args"][0])
-        v0 = deep_strip(stores[0]["args"][-1])
+        t0 = deep_strip(stores[0][0])
+        v0 = deep_strip(stores[0][1])
         fitem = symx.find_all(t0, lambda n: n[0] == "app" and flow.last(n[1]) == "find")
         ok0 = (t0[0] == "index" and idx_from_indexes(t0[2]) and shared.cls_of_term(v0) == "T" and bool(fitem)
                and symx.contains(t0[2], lambda n: n[0] == "field" and n[2] == "1"))
         ctx.ob(rule, "two.found-becomes-top", ok0, where=b.where(), expected="result[at] = TOP with at the found element of indexes", found="%s := %s" % (show(t0)[:160], show(v0)))
         for s_ in stores[1:]:
-            t1 = deep_strip(s_["args"][0])
-            v1 = deep_strip(s_["args"][-1])
+            t1 = deep_strip(s_[0])
+            v1 = deep_strip(s_[1])
             rng = symx.find_all(t1, lambda n: n[0] == "adt" and n[1].endswith("ops::Range"))
             ok1 = t1[0] == "index" and idx_from_indexes(t1[2]) and shared.cls_of_term(v1) == "B" and len(rng) >= 1 and symx.adt_get(rng[0], "start") == vint(0)
             if ok1:
